@@ -1603,6 +1603,9 @@ class FunctionNode(AstNode):
         new.ast = copy.deepcopy(self.ast)
         new._fmtargs = copy.deepcopy(self._fmtargs)
         new._fmtresult = copy.deepcopy(self._fmtresult)
+        # Each function has a list of its own,
+        # generic variants are added for assumed-rank arguments.
+        new.fortran_generic = self.fortran_generic[:]
 
         return new
 
